@@ -6,3 +6,4 @@ export CARGO_NET_OFFLINE=true
 (cd lean && lake build Iox2 iox2driver)
 cp /repo/Cargo.lock harness/Cargo.lock 2>/dev/null || true
 (cd harness && cargo build --release --offline)
+(cd harness && ./build_trace.sh)
